@@ -36,17 +36,17 @@ func init() {
 
 // c12Spec describes one child batch: one cluster and the stores shaped on it.
 type c12Spec struct {
-	N      int    `json:"n"`  // members
-	R      int    `json:"r"`  // ReplicaCount
-	P      uint64 `json:"p"`  // partitions
-	TS     uint64 `json:"ts"` // table size
-	Idle0  bool   `json:"idle0,omitempty"`  // recycled tables are freed at once (maxIdleTableTimeout=0)
+	N      int    `json:"n"`               // members
+	R      int    `json:"r"`               // ReplicaCount
+	P      uint64 `json:"p"`               // partitions
+	TS     uint64 `json:"ts"`              // table size
+	Idle0  bool   `json:"idle0,omitempty"` // recycled tables are freed at once (maxIdleTableTimeout=0)
 	Stores int    `json:"stores"`
 	Seed   int64  `json:"seed"`
-	Join   bool   `json:"join,omitempty"`   // a member joins after phase 1 (phases 2..4)
-	Churn  bool   `json:"churn,omitempty"`  // phase 1 scans of odd stores run under a concurrent churn of disjoint keys
-	NCount int    `json:"ncount"`           // how many of the six COUNT values each store uses
-	MaxKey int    `json:"maxkey"`           // upper bound for the first put of a store
+	Join   bool   `json:"join,omitempty"`  // a member joins after phase 1 (phases 2..4)
+	Churn  bool   `json:"churn,omitempty"` // phase 1 scans of odd stores run under a concurrent churn of disjoint keys
+	NCount int    `json:"ncount"`          // how many of the six COUNT values each store uses
+	MaxKey int    `json:"maxkey"`          // upper bound for the first put of a store
 	// replay filter (0-based store index, phase, scan index; -1 = all)
 	OnlyStore int `json:"only_store"`
 	OnlyPhase int `json:"only_phase"`
